@@ -586,7 +586,31 @@ EQUIV = [('RealInterval([3, 7])', 'RealInterval(start=3, stop=7)'), ('RealInterv
          ('EqualityComparer()', 'equality_comparer'), ('EqualityComparer()', 'EqualityComparer(transform=None)'),
          ('DiscreteSet(3.5)', 'DiscreteSet((3.5,))'), ('SpecificFunctions(np.sin)', 'SpecificFunctions([np.sin])'),
          ("StringGrader(answers='zebra')", "StringGrader(answers={'expect': 'zebra', 'msg': '', 'grade_decimal': 1})"),
-         ('IntervalGrader()', 'IntervalGrader(subgrader=NumericalGrader(tolerance=1e-13, allow_inf=True))')]
+         ('IntervalGrader()', 'IntervalGrader(subgrader=NumericalGrader(tolerance=1e-13, allow_inf=True))'),
+         # the documented ways of writing the same answers, also where the grader sits inside a list grader (string form
+         # and list form of an interval, delimiter string and list of a SingleListGrader, bare value and dictionary)
+         ("IntervalGrader(answers='[1,2)')", "IntervalGrader(answers=['[', '1', '2', ')'])"),
+         ("IntervalGrader(answers='(0,5]')", "IntervalGrader(answers=['(', {'expect': '0'}, '5', ']'])"),
+         ("ListGrader(answers=['[1,2)', '(3,4]'], subgraders=IntervalGrader())",
+          "ListGrader(answers=[['[', '1', '2', ')'], ['(', '3', '4', ']']], subgraders=IntervalGrader())"),
+         ("ListGrader(answers=['[1,2)', 'cat'], subgraders=[IntervalGrader(), StringGrader()], ordered=True)",
+          "ListGrader(answers=[['[', '1', '2', ')'], {'expect': 'cat'}], subgraders=[IntervalGrader(), StringGrader()], "
+          "ordered=True)"),
+         ("ListGrader(answers=[{'expect': '[1,2)', 'msg': 'm'}, '(3,4]'], subgraders=IntervalGrader())",
+          "ListGrader(answers=[{'expect': ['[', '1', '2', ')'], 'msg': 'm'}, ['(', '3', '4', ']']], "
+          "subgraders=IntervalGrader())"),
+         ("SingleListGrader(answers=['[1,2)', '(3,4]'], subgrader=IntervalGrader(), delimiter=';')",
+          "SingleListGrader(answers='[1,2);(3,4]', subgrader=IntervalGrader(), delimiter=';')"),
+         ("ListGrader(answers=['a,b', 'c,d'], subgraders=SingleListGrader(subgrader=StringGrader()))",
+          "ListGrader(answers=[['a', 'b'], ['c', 'd']], subgraders=SingleListGrader(subgrader=StringGrader()))"),
+         ("ListGrader(answers=['a', 'b'], subgraders=StringGrader())",
+          "ListGrader(answers=[{'expect': 'a'}, {'expect': 'b', 'grade_decimal': 1, 'msg': ''}], subgraders=StringGrader())"),
+         ("SingleListGrader(answers='a,b', subgrader=StringGrader())", "SingleListGrader(answers=['a', 'b'], subgrader=StringGrader())"),
+         ("SingleListGrader(answers=('a,b', 'c,d'), subgrader=StringGrader())",
+          "SingleListGrader(answers=(['a', 'b'], {'expect': ['c', 'd']}), subgrader=StringGrader())"),
+         ("FormulaGrader(answers='x+1', variables=['x'])", "FormulaGrader(answers={'expect': 'x+1'}, variables=['x'])"),
+         ("ListGrader(answers=['x', '2*x'], subgraders=FormulaGrader(variables=['x']))",
+          "ListGrader(answers=[{'expect': 'x'}, {'expect': '2*x', 'msg': ''}], subgraders=FormulaGrader(variables=['x']))")]
 
 
 # ----------------------------------------------------------------------------------------------------------------
